@@ -44,4 +44,13 @@ def main():
 
 
 if __name__ == "__main__":
-    main()
+    try:
+        main()
+    except SystemExit:
+        raise
+    except BaseException as e:  # noqa: BLE001 - an uncaught exception is a harness error (exit 2), never a verdict
+        import traceback
+
+        traceback.print_exc()
+        print(f"HARNESS-ERROR: {type(e).__name__}: {e}")
+        sys.exit(2)
